@@ -8,3 +8,5 @@ import Dtr.Props.C10
 #print axioms Dtr.C12_header_names_distinct
 #print axioms Dtr.C12_header_needs_newline
 #print axioms Dtr.C12_calls_and_declarations
+#print axioms Dtr.C12_accepted_in_grammar
+#print axioms Dtr.C12_block_in_grammar
